@@ -61,7 +61,7 @@ func (cfg *Config) NewInput(_ logger.Logger, allocator *base.LogAllocator, schem
 			parentLogger.Panic("failed to create parser: ", err)
 		}
 		extractionTransforms := bsupport.NewTransformsFromConfig(cfg.Extractions, schema, inputLogger, inputCounter)
-		return newCompositeParser(parser, extractionTransforms, allocator)
+		return newCompositeParser(parser, extractionTransforms, allocator, inputCounter)
 	}
 
 	inputMetricCreator := metricCreator.AddOrGetPrefix("input_", []string{"protocol"}, []string{"syslog"})
@@ -96,6 +96,7 @@ func (cfg *Config) NewParser(parentLogger logger.Logger, allocator *base.LogAllo
 		syslogparser.MustNewParser(slogger, allocator, schema, cfg.LevelMapping, inputCounter),
 		bsupport.NewTransformsFromConfig(cfg.Extractions, schema, slogger, inputCounter),
 		allocator,
+		inputCounter,
 	), nil
 }
 
